@@ -11,6 +11,7 @@ Python oracle on every real MIR; their proofs are work in progress (see DESIGN.m
 import NadaVerif.Lemmas.Exact
 import NadaVerif.Lemmas.FnExact
 import NadaVerif.Lemmas.AccExact
+import NadaVerif.Props.C01
 
 namespace NadaVerif.C09
 open NadaVerif NadaVerif.Spec NadaVerif.Lemmas
@@ -70,6 +71,13 @@ theorem inputs_literals_once_and_present (st : St) (outs : List OutDecl) (m : Mi
       (∀ v i ty, e.2 = .literal v i ty → count (toString i) (m.literals.map (·.name)) = 1) := by
   obtain ⟨h1, _, h3, hc⟩ := compile_acc st outs m h
   exact ⟨h1, h3, fun t ht e he => ⟨fun n p d ty heq => ((hc t ht e he).1 n p d ty heq).1, (hc t ht e he).2⟩⟩
+
+/-- **No entry a traced program refers to is missing from the store the tables are filled from**: compiling any
+traced program with outputs taken from its registers never fails on a missing id (so "missing" in
+`nothing_missing_nothing_twice` cannot be hidden behind a failed compilation). -/
+theorem traced_nothing_missing (cs : List Cmd) (outs : List OutDecl)
+    (ho : C01.OutsFromRegs (runCmds {} cs).1.regs outs) : compile (runCmds {} cs).1.st outs ≠ .error .key :=
+  C01.trace_compile_no_missing cs outs ho
 
 /-- Non-vacuity and a concrete dead-code example: operation 4 is traced but no output needs it. -/
 def exSt : St := St.mk 4
